@@ -968,6 +968,73 @@ func cpuModeConsts(l *loader, pkg string) [][2]string {
 	return out
 }
 
+// cpuOpcodeTable reads the 256-entry instructionType literal of a CPU package: (opcode, name, mode, size, cycles, proc).
+func cpuOpcodeTable(l *loader, pkg string) []string {
+	p, err := l.load(modPath + "/" + pkg)
+	if err != nil {
+		panic(terr{err.Error()})
+	}
+	var lit *ast.CompositeLit
+	for _, f := range p.files {
+		ast.Inspect(f, func(n ast.Node) bool {
+			cl, ok := n.(*ast.CompositeLit)
+			if !ok {
+				return true
+			}
+			tv, ok := p.info.Types[cl]
+			if !ok {
+				return true
+			}
+			at, ok := tv.Type.Underlying().(*types.Array)
+			if !ok {
+				return true
+			}
+			if n, ok := at.Elem().(*types.Named); ok && n.Obj().Name() == "instructionType" {
+				if lit != nil {
+					panic(terr{"two instruction tables in " + pkg})
+				}
+				lit = cl
+				return false
+			}
+			return true
+		})
+	}
+	if lit == nil {
+		panic(terr{"instruction table not found in " + pkg})
+	}
+	var out []string
+	for _, e := range lit.Elts {
+		cl, ok := e.(*ast.CompositeLit)
+		if !ok || len(cl.Elts) != 6 {
+			panic(terr{l.pos(e.Pos()) + ": unexpected instruction table element"})
+		}
+		var f [5]string
+		for i := 0; i < 5; i++ {
+			tv := p.info.Types[cl.Elts[i]]
+			if tv.Value == nil {
+				panic(terr{l.pos(cl.Elts[i].Pos()) + ": non-constant table field"})
+			}
+			if tv.Value.Kind() == constant.String {
+				f[i] = coqStr(constant.StringVal(tv.Value))
+			} else {
+				f[i] = tv.Value.ExactString()
+			}
+		}
+		proc := ""
+		switch pe := cl.Elts[5].(type) {
+		case *ast.Ident:
+			proc = pe.Name
+		case *ast.SelectorExpr:
+			proc = pe.Sel.Name
+		}
+		out = append(out, fmt.Sprintf("(%s, %s, %s, %s, %s, %s)", f[0], f[1], f[2], f[3], f[4], coqStr(proc)))
+	}
+	if len(out) != 256 {
+		panic(terr{fmt.Sprintf("instruction table of %s has %d entries", pkg, len(out))})
+	}
+	return out
+}
+
 func genEmitter(l *loader, dir string) {
 	p, err := l.load(modPath + "/asm")
 	if err != nil {
@@ -1059,6 +1126,9 @@ func genEmitter(l *loader, dir string) {
 			fmt.Fprintf(&b, "(%s, %s)", coqStr(m[0]), m[1])
 		}
 		b.WriteString("].\n")
+	}
+	for _, c := range [][2]string{{"cpu65_table", "emulator/cpu65c816"}, {"cpualt_table", "emulator/cpualt"}} {
+		fmt.Fprintf(&b, "\nDefinition %s : list (Z * string * Z * Z * Z * string) := [\n  %s\n].\n", c[0], strings.Join(cpuOpcodeTable(l, c[1]), ";\n  "))
 	}
 	writeFile(dir, "GenEmitter.v", b.String())
 	summary["GenEmitter"] = names
